@@ -13,7 +13,18 @@ Verdict(o) ==
        THEN "known=" \o (CHOOSE dv \in KnownDeviations : obs = ImplOutcome(doc, o.ptr, {dv}))
        ELSE "viol"
 
+\* The same relation seen through openapi/parser: a parameter $ref of an OpenAPI document
+\* (doc inline).  The parser may refuse what is not a parameter object, so a refusal is a
+\* violation only where the harness built the pointer to a parameter object (must);
+\* a resolved node is always judged: it is the one the pointer designates or a violation.
+OasVerdict(o) ==
+  LET obs == [kind |-> o.kind, path |-> o.path] IN
+  IF o.kind = "node" THEN (IF obs \in Allowed(o.doc, o.ptr) THEN "ok" ELSE "viol-parser-resolved-a-different-node")
+  ELSE IF o.kind = "err" THEN (IF o.must THEN "viol-parser-refused-a-valid-reference" ELSE "ok")
+  ELSE "viol-parser-" \o o.kind
+VerdictAny(o) == IF "k" \in DOMAIN o THEN OasVerdict(o) ELSE Verdict(o)
+
 VARIABLE l
 Init == l = 0
-Next == l < Len(Obs) /\ l' = l + 1 /\ Report(l', Verdict(Obs[l']))
+Next == l < Len(Obs) /\ l' = l + 1 /\ Report(l', VerdictAny(Obs[l']))
 =============================================================================
